@@ -40,3 +40,9 @@ PROP["manifest"]["level_text"] += (
     "leaf-list the C19 model of Equal answers what the cache model's valueEqual answers on the translated values); the exact limit of the "
     "cache model's value fragment is nested_leaflist_limit (a nested leaf-list is opaque to the model, Go's Equal recurses into it; "
     "no generator builds one; witness replay in proposed_fixes/c19_nested_leaflist_model_limit.ops).")
+
+PROP["assumptions"] += [
+    "`wi conc` (Subscribe RPCs of several peers at once on one server with statistics) has no model behind it: the "
+    "monitor and the -race build (step conc_race) judge it; the theorems cover one RPC / one session at a time, the "
+    "interleavings of the Subscribe server are C04-C08's",
+]
